@@ -121,7 +121,9 @@ var privProbes = []privProbe{
 		sub := []rp.Field{rp.F(rp.FData, rp.Obfuscate([]byte(fmt.Sprintf("bvictim%02d", k))))}
 		return rp.TUpdateUser, []rp.Field{rp.F(rp.FData, subFields(sub))}
 	}},
-	{Name: "read-account", Needs: []int{rp.POpenUser}, Build: func(k int, e *c05Env) (uint16, []rp.Field) { return rp.TGetUser, []rp.Field{rp.FS(rp.FUserLogin, "other")} }},
+	{Name: "read-account", Needs: []int{rp.POpenUser}, Build: func(k int, e *c05Env) (uint16, []rp.Field) {
+		return rp.TGetUser, []rp.Field{rp.FS(rp.FUserLogin, "other")}
+	}},
 	{Name: "list-accounts", Needs: []int{rp.POpenUser}, Build: func(k int, e *c05Env) (uint16, []rp.Field) { return rp.TListUsers, nil }},
 	{Name: "modify-account", Needs: []int{rp.PModifyUser}, Build: func(k int, e *c05Env) (uint16, []rp.Field) {
 		return rp.TSetUser, []rp.Field{rp.F(rp.FUserLogin, rp.Obfuscate([]byte("other"))), rp.FS(rp.FUserName, fmt.Sprintf("Other %d", k)), rp.F(rp.FUserAccess, make([]byte, 8)), rp.F(rp.FUserPassword, []byte{0})}
